@@ -53,6 +53,11 @@ CLAIMED["C12"] = dict(
    text="Exploration: 60k (quick) / 600k (thorough) planted-fault programs (generated preamble with multi-line constructs and trivia, one of 8 fault kinds on a known line, optionally spread over two lines, reached through 0-4 carriers - calls, methods, each callbacks, overloads, nested blocks - and filler) are run through KotoVm::run: the trace must map, innermost first, to exactly the fault line and the call-site lines, the rendered message must quote those lines in order, and debug output must carry the line of the debug keyword; illegal tokens planted at known token boundaries of corpus texts must be reported on their line with a column inside it; every compile error over a sample of the mutation neighbourhood must point inside the source; and over 6k / 100k generated programs and the corpus the source span of successive instructions may never step back to an earlier top-level statement.",
    note="Only lines are judged (columns must merely lie inside the line). Native adaptor frames are expected on the line of the call that drives them (repeated lines are collapsed).",
    design="§4 C12")
+CLAIMED["C13"] = dict(
+   technique="model-based property-based testing: bounded-exhaustive enumeration of adaptor chains x sources x consumers (deeper chains proptest-sampled) against a sequence model on plain vectors, with a pull-trace oracle for laziness",
+   text="Exploration: every adaptor chain of depth <= 2 over 31 adaptor instances (each, keep, skip/take/step/chunks/windows with parameters 0..3, take-while, chain, zip, enumerate, flatten, intersperse, cycle, reversed, iter) x 14 source kinds (list, tuple, three range forms, string, map, tracing generator, string chars/bytes/split/lines, @next object, @iterator object) of every length 0..5 x 21 consumers (quick: all consumers up to depth 1 and a rotated consumer at depth 2; thorough: all) plus 150k / 2.5M sampled pipelines of depth 3-4; printed results must equal the vector model (incl. errors for zero parameters and reversed on non-bidirectional chains, mixed next/next_back partitioning, copy independence, reuse after exhaustion) and generator pull traces must show no pull before consumption, pulls in order exactly once, and no more pulls than the model's demand plus declared look-ahead.",
+   note="Trusts the vector model (Rust std iterator semantics + the core-library docs). Copies of iterators over user objects, sums/minima of single incomparable values and endless pipelines are not judged.",
+   design="§4 C13")
 NOT_YET = {}
 props=[json.loads(l) for l in open('/verif/properties.jsonl')]
 checks=[]; na=[]
